@@ -383,6 +383,33 @@ def run(tier, seed):
             total += len(cases)
             n_accept += len(cases)
             outcomes |= {c.expected for c in cases}
+    # "a global of the same file": an imported file whose functions and *data globals* mention its own globals a / b by their
+    # bare names, while the importing file defines (or not) unrelated globals of the same names; the imported globals are
+    # reached first from the importing file, then from inside the imported file, and the other way round
+    n_cross = 0
+    other = ("a : i64 : 3000;\nb : i64 : 4000;\nva :: a;\nvb : i64 : b;\npab :: i64.[a, b];\nfa :: () -> i64 { a }\nfb :: () -> i64 { b + va }\n"
+             "sum_all :: () -> i64 { va + vb + pab[0] + pab[1] }\n")
+    uses = {"data-first": "pr(o.va); pr(o.vb); pr(o.pab[0]); pr(o.pab[1]); pr(o.fa()); pr(o.fb()); pr(o.sum_all());",
+            "functions-first": "pr(o.sum_all()); pr(o.fb()); pr(o.fa()); pr(o.pab[1]); pr(o.pab[0]); pr(o.vb); pr(o.va);"}
+    want = {"data-first": [3000, 4000, 3000, 4000, 3000, 7000, 14000], "functions-first": [14000, 7000, 3000, 4000, 3000, 4000, 3000]}
+    cross_cases = []
+    for cfg in configs:
+        for uname, ucode in uses.items():
+            own = "".join(f"pr({n});" for n in cfg)
+            c = Case(f"cross-file/{'+'.join(cfg) or 'none'}/{uname}", ucode + " " + own,
+                     "".join(f"{v} " for v in want[uname] + [1000 if n == "a" else 2000 for n in cfg]))
+            c.meta["globals"] = cfg
+            cross_cases.append(c)
+    for cfg in configs:
+        prelude = prelude0 + 'o :: #import("o.capy");\n' + "".join(f"{n} :: {1000 if n == 'a' else 2000};\n" for n in cfg)
+        runner = core.Runner("c05x" + "".join(cfg), batch_size=1, prelude=prelude)
+        runner.extra_files = {"o.capy": other}
+        mine = [c for c in cross_cases if c.meta["globals"] == cfg]
+        all_mism += runner.run(mine)
+        compiles += runner.compiles
+        n_cross += len(mine)
+        total += len(mine)
+        n_accept += len(mine)
     if n_accept < 100 or n_reject < 100 or len(outcomes) < 50:
         core.machinery_failure("vacuous run")
     coverage = {
@@ -393,7 +420,7 @@ def run(tier, seed):
         "rule": "a case = (binding skeleton, global configuration); every case is compiled by the real CLI; cases without undefined uses are executed",
         "bounds_completed": {"skeletons": len(skels), "global_configurations": 4, "nesting_depth": 2, "constructs": KINDS,
                              "executed": n_accept, "diagnostic_line_sets_checked": n_reject,
-                             "builtin_name_pools": [sorted(p.values()) for p in BUILTIN_POOLS], "builtin_name_cases": n_builtin},
+                             "builtin_name_pools": [sorted(p.values()) for p in BUILTIN_POOLS], "builtin_name_cases": n_builtin, "cross_file_cases": n_cross},
         "distinct_outcomes": len(outcomes),
         "compilations": compiles,
         "samples": sample,
